@@ -183,6 +183,12 @@ def _fold(node, env):
         raise _NoFold()
     if isinstance(node, ast.List):
         return [_fold(e, env) for e in node.elts]
+    if isinstance(node, ast.Subscript) and not isinstance(node.slice, ast.Slice):
+        base = _fold(node.value, env)
+        idx = _fold(node.slice, env)
+        if isinstance(base, (str, tuple, list)) and isinstance(idx, int) and not isinstance(idx, bool) and -len(base) <= idx < len(base):
+            return base[idx]
+        raise _NoFold()
     raise _NoFold()
 
 
